@@ -7,13 +7,13 @@ def value_corpus(F, tier, name):
     q = tier == "quick"
     recs = []
     recs += gen.g_plain(F, rng, 200 if q else 4000)
-    recs += gen.g_midpoints(F, rng, tier, nexp=40 if q else None, nrand=1 if q else 6)
+    recs += gen.g_midpoints(F, rng, tier, nexp=40 if q else 900, nrand=1 if q else 6)
     recs += gen.g_floats_exact(F, rng, 60 if q else 2000)
     recs += gen.g_seams(F, rng)[:: 2 if q else 1]
-    recs += gen.g_short_ties(F, rng, 1 if q else 20)[:: 2 if q else 1]
-    recs += gen.g_low_decade(F, rng, tier, 6 if q else 300, 1 if q else 4)
+    recs += gen.g_short_ties(F, rng, 1 if q else 8)[:: 2 if q else 1]
+    recs += gen.g_low_decade(F, rng, tier, 6 if q else 150, 1 if q else 2)
     recs += gen.g_beyond_range(F, rng, 1 if q else 4)[:: 2 if q else 1]
-    recs += gen.g_every_decade(F, rng, 5 if q else 1, 1 if q else 4)
+    recs += gen.g_every_decade(F, rng, 5 if q else 1, 1 if q else 2)
     recs += gen.g_int_ties(F, rng, 40 if q else 800)
     recs += gen.g_extremes(F, rng, big=20000 if q else 1000000)
     recs += gen.g_runs(F, rng, 80 if q else 3000)
@@ -337,8 +337,8 @@ def float_bits_corpus(F, rng, tier):
         keep = {0, 1, 2, F.emaxfield - 1, F.bias, F.bias + 1, F.bias - 1}
         fields = sorted(keep | set(rng.sample(fields, 150 if F.name == "f64" else 100)))
     for ef in fields:
-        pats = gen.sig_patterns(F, rng, 2 if q else 64)
-        for fr in (rng.sample(pats, 4) if q else pats):
+        pats = gen.sig_patterns(F, rng, 2 if q else 8)
+        for fr in (rng.sample(pats, 4) if q else rng.sample(pats, 8)):
             out.append((ef << F.mbits) | fr)
     out += [0, 1, 2, F.infbits - 1]
     return sorted(set(out))
@@ -354,7 +354,7 @@ def c03(tier):
     # sit extremely close to a rounding boundary of the parser's extended-precision product
     import struct
     rng = gen.rng_for("C03short")
-    for _ in range(15000 if tier == "quick" else 200000):
+    for _ in range(15000 if tier == "quick" else 100000):
         k = rng.randrange(1, 10 ** rng.choice([1, 2, 3, 4]))
         n = rng.randrange(-325, 305)
         try:
@@ -388,7 +388,7 @@ def c03(tier):
 def long_corpus(F, tier, name):
     rng = gen.rng_for(name)
     q = tier == "quick"
-    recs = [r for r in gen.g_midpoints(F, rng, tier, nexp=16 if q else 400, nrand=1 if q else 3)
+    recs = [r for r in gen.g_midpoints(F, rng, tier, nexp=16 if q else 250, nrand=1 if q else 3)
             if r["tag"].split(":")[1] in ("far1", "nines", "zeros", "exact", "last+1", "last-1", "trunc", "truncup")]
     recs = [r for r in recs if len(r["int"]) + len(r["frac"]) > 19]
     recs += gen.g_runs(F, rng, 100 if q else 4000)
